@@ -458,5 +458,6 @@ func genScenario(t *rapid.T) *Scenario {
 	for i := 0; i < n; i++ {
 		sc.Targets = append(sc.Targets, genTarget(t, i, sc.Servers, sc.Requests))
 	}
+	sc.Reuse = genReuse(t, sc.Targets)
 	return sc
 }
